@@ -311,7 +311,7 @@ func rtGen(t *rapid.T) RTCase {
 }
 
 func TestPropReadTimeout(t *testing.T) {
-	kit.Run(t, kit.Spec[RTCase]{ID: "C34", Name: "read-timeout", Gen: rtGen, Check: rtCheck, Quick: 500, Thorough: 12000,
+	kit.Run(t, kit.Spec[RTCase]{ID: "C34", Name: "read-timeout", Gen: rtGen, Check: rtCheck, Quick: 500, Thorough: 5000,
 		Rule: "a completed handshake (TLS 1.0-1.3; ECDSA, RSA, Ed25519 identities; tickets on/off, so that TLS 1.3 clients also receive NewSessionTicket records in the stream; dynamic record sizing on/off); one side writes 1-6 messages of 1..40000 bytes and CloseWrite, the other side reads with a 1..20000 byte buffer through a transport that reports a read timeout (os.ErrDeadlineExceeded, as net.Conn does) at 1-6 generated positions of the inbound record stream: at a record boundary, inside the 5-byte header, inside the body, at the last bytes of a record; after every timeout the reader clears its deadline and reads on. The bytes received must be exactly the bytes sent, ending in io.EOF, and every transport timeout must surface as exactly one Read timeout. Non-trivial: at least one timeout fired inside a record (header or body); distinct by case hash",
 		Assumptions: []string{
 			"a read deadline may expire at any point relative to the arrival of the bytes, so a timeout error from the transport between any two bytes is a behaviour of net.Conn every application can meet; the transport wrapper decides the positions instead of a clock",
